@@ -49,5 +49,11 @@ for c in m["checks"]:
     t.append("| %s | %s | %s/%s theorems, %s ops, %.0f s |" % (c["property_id"], c.get("technique", ""), cov.get("discharged", "?"), cov.get("obligations", "?"),
                                                                    cov.get("ops_total", cov.get("evaluations", "?")), ev.get("wall_s", 0)))
 block("checks", "\n".join(t) + "\n\nNot registered yet: " + ", ".join(x["property_id"] for x in m.get("not_applicable", [])) or "none")
+# per-property status from the registered manifest entries
+t = []
+for c in m["checks"]:
+    pid = c["property_id"]
+    t.append("**%s** — *%s*\n\n%s\n\n*Assumed / partial:* %s\n" % (pid, c.get("technique", ""), c["level_claimed"]["text"], c["level_note"]))
+block("status", "\n".join(t))
 open(os.path.join(V, "DESIGN.md"), "w").write(d)
 print("DESIGN.md blocks updated")
